@@ -142,7 +142,9 @@ CHECKS = {
         technique="runtime monitoring: cross-path consistency oracle (four public "
                   "prediction paths on the same inputs), float64 closed forms, "
                   "multiset-inclusion checker over index tensors observed at the "
-                  "rebound bootstrap / train_epoch inside train_ensemble, "
+                  "rebound bootstrap / train_epoch inside train_ensemble with NaN "
+                  "poisoning of every row the index tensor does not name (data "
+                  "sets up to 140000 rows), "
                   "statistical per-dimension spread of ts_inf particles, "
                   "differential test of the reward model against Pendulum-v1",
         text="Exploration over ensemble sizes, output dimensions, vector/batch "
@@ -183,7 +185,8 @@ CHECKS = {
     "C10": dict(
         technique="runtime monitoring: bounds / clip / standardised-noise oracles "
                   "on the real action samplers and tanh policies with hostile "
-                  "boxes and network outputs; in-loop check of every action the "
+                  "boxes and network outputs, including families of samplers "
+                  "made in one process that differ in one attribute; in-loop check of every action the "
                   "recording environment receives and of CEM candidates exported "
                   "from the rebound planner sampler",
         text="Exploration over boxes (asymmetric, tiny, huge), noise / clip "
